@@ -4,7 +4,7 @@ import Rivaas.Model.Lifecycle
 /-
 Driver for C09. Case line (see harness/c09):
 
-  <id> <metrics> <tracing> <listen 0|1|2> <starts: n b…> <readies: n b…> <nReload> <shuts: n b…> <stops: n b…>
+  <id> P <entry 0|1|2> <metrics> <tracing> <listen 0|1|2|3> <starts: n b…> <readies: n b…> <nReload> <shuts: n b…> <stops: n b…>
        <reqs: n (H j | D | N)…> <rounds: n (trig  n b…  (0 | 1 j)  pair)…>
     => LOG n <event>… RES <code> FIN <app> <met> RQ n <0|1|2>… RR n <0|1|2|9>…
 
@@ -29,6 +29,7 @@ def pListen : P Listen := do
   | 0 => pure .ok
   | 1 => pure .busy
   | 2 => pure .bad
+  | 3 => pure .cert
   | _ => failure
 
 def pRel : P Rel := do
@@ -47,6 +48,9 @@ def pRound : P Round := do
   pure { trig := trig, beh := beh, cancelAt := ca, pair := pair }
 
 def pScenario : P Scenario := do
+  -- entry point (0 Start, 1 StartTLS, 2 StartMTLS): the three share the model
+  lit "P"
+  let _proto ← nat
   let m ← bool
   let t ← bool
   let l ← pListen
